@@ -40,19 +40,19 @@ Definition hitN (g : strig) : bool := match sf g with Some false => true | _ => 
 Section filt2.
   Variable tg : N -> strig.
   Variable szf : N -> N.
-  Variables (fm hc : bool) (gd thr ms : N) (sh : shape).
-  Let c := fcfg2 tg szf fm hc gd thr ms sh.
+  Variables (fm hc lm : bool) (gd thr ms : N) (sh : shape).
+  Let c := fcfg2 tg szf fm hc lm gd thr ms sh.
 
   Ltac open_entry Hi :=
     unfold do_enter, hooked, entry_check;
     rewrite (check_rstack_ok c _ Hi); cbn [fc enabled cached stack ridx out warned];
     unfold c; cbn [fcfg2 trig_of ftrig2 t_filter t_depth t_time t_size t_trace_on t_trace_off t_trace t_caller
-                   fmode_in gdepth shp has_caller threshold sym_size].
+                   fmode_in gdepth shp has_caller threshold sym_size loc_out t_loc lmode_in].
 
   (* an entry whose trigger is looked at: not inside notrace, and inside the opt-in scope or a filter itself *)
   Lemma enter_reach s i dp mx tm zs a t :
     fc s = fstate2 i 0 dp mx tm zs -> enabled s = true -> idx s < ms -> (0 <= i)%Z ->
-    (sf (tg a) <> None \/ fm = false \/ (0 < i)%Z) ->
+    (sf (tg a) <> None \/ fm = false \/ (0 < i)%Z) -> loc_hidden lm (tg a) = false ->
     let g := tg a in
     let i' := if hitF g then (i + 1)%Z else i in
     let o' := if hitN g then 1%Z else 0%Z in
@@ -79,10 +79,11 @@ Section filt2.
          stack := gframe3 sh (hitN g || small) (hitF g) (hitN g) (str g) (sc g) a t (ridx s) (fstate2 i 0 dp mx tm zs) :: stack s;
          ridx := (if hitN g || small then ridx s else ridx s + 1); out := out s; warned := false |} /\ hooked c s a = true.
   Proof.
-    intros Hfc Hen Hi Hi0 Hreach. cbv zeta. unfold hitF, hitN.
+    intros Hfc Hen Hi Hi0 Hreach Hloc. cbv zeta. unfold hitF, hitN, loc_hidden in *.
     open_entry Hi. rewrite Hfc, Hen.
     cbn [fstate2 in_count out_count depth max_depth ftime fsize Z.gtb Z.compare].
-    destruct (tg a) as [f dd tt zz ttr tcl]. cbn [sf sd stm ssz str sc] in *.
+    destruct (tg a) as [f dd tt zz ttr tcl tlo]. cbn [sf sd stm ssz str sc sl] in *.
+    unfold loc_out. cbn [t_loc ftrig2 sl lmode_in fcfg2]. rewrite Hloc.
     assert (E0 : match f with Some _ => false | None => fm && (i =? 0)%Z end = false).
     { destruct f; [reflexivity|]. destruct Hreach as [H|[H|H]]; [congruence|subst fm; reflexivity|].
       destruct fm; [|reflexivity]. cbn [andb]. lia. }
@@ -98,7 +99,7 @@ Section filt2.
       destruct sh; unfold entry_record, with_fc;
       cbn [fc enabled cached stack ridx out warned in_count out_count fsize f_flags norecord f_addr f_start f_depth
            t_filter t_trace t_caller t_trace_on t_trace_off orb andb noflags cygprof Z.gtb Z.compare N.ltb N.compare
-           fmode_in sym_size ftrig2 sf sd stm ssz str sc fcfg2 Z.add Pos.add fstate2 gframe3 gfl3 state_trig is_some];
+           fmode_in sym_size ftrig2 sf sd stm ssz str sc sl fcfg2 Z.add Pos.add fstate2 gframe3 gfl3 state_trig is_some];
       rewrite ?E1, ?E2, ?orb_false_r; try (split; reflexivity);
       match goal with |- context [(0 <? ?z) && (szf a <? ?z)] => destruct ((0 <? z) && (szf a <? z)) end;
       cbn [orb andb]; rewrite ?E1, ?E2, ?orb_false_r; cbn [orb andb]; try (split; reflexivity).
@@ -136,7 +137,7 @@ Section filt2.
         all: cbn; repeat split; reflexivity.
     - destruct Hk as [Hk|(Hf & -> & ->)]; [lia|]. rewrite Hf.
       cbn [andb Z.eqb negb]. unfold with_fc.
-      destruct (tg a) as [f dd tt zz ttr tcl]. cbn [sf sd stm ssz str sc] in *. subst f.
+      destruct (tg a) as [f dd tt zz ttr tcl tlo]. cbn [sf sd stm ssz str sc sl] in *. subst f.
       destruct sh.
       + unfold state_trig. cbn [ftrig2 t_filter t_depth t_time t_size sf sd stm ssz].
         destruct dd as [n|], tt as [t'|], zz as [z'|]; cbn [is_some orb];
@@ -151,6 +152,44 @@ Section filt2.
             cbn [fc enabled cached stack ridx out warned in_count out_count fsize f_flags norecord f_addr f_start f_depth
                  t_filter t_trace t_caller ftrig2 sf orb]. reflexivity. }
         all: cbn; repeat split; reflexivity.
+  Qed.
+
+  (* an entry whose trigger is looked at but which lies at a hidden source location (-L): rejected after the filter
+     counts were changed and before any other trigger action; a NORECORD frame is kept by the always-push shape,
+     and by -pg if the trigger carries a state-changing action *)
+  Lemma enter_loc s i dp mx tm zs a t :
+    fc s = fstate2 i 0 dp mx tm zs -> enabled s = true -> idx s < ms -> (0 <= i)%Z ->
+    (sf (tg a) <> None \/ fm = false \/ (0 < i)%Z) -> loc_hidden lm (tg a) = true ->
+    let g := tg a in
+    let i' := if hitF g then (i + 1)%Z else i in
+    let o' := if hitN g then 1%Z else 0%Z in
+    let dp0 := if is_some (sf g) then 0 else dp in
+    if (match sh with CYG => true | PG => is_some (sf g) || is_some (sd g) || is_some (stm g) || is_some (ssz g) end)
+    then do_enter c s a t =
+         {| fc := fstate2 i' o' dp0 mx tm zs; enabled := true; cached := cached s;
+            stack := gframe3 sh true (hitF g) (hitN g) (str g) (sc g) a 0 (ridx s) (fstate2 i 0 dp mx tm zs) :: stack s;
+            ridx := ridx s; out := out s; warned := false |} /\ hooked c s a = true
+    else do_enter c s a t =
+         {| fc := fstate2 i 0 dp mx tm zs; enabled := true; cached := cached s; stack := stack s;
+            ridx := ridx s; out := out s; warned := false |} /\ hooked c s a = false.
+  Proof.
+    intros Hfc Hen Hi Hi0 Hreach Hloc. cbv zeta. unfold hitF, hitN, loc_hidden in *.
+    open_entry Hi. rewrite Hfc, Hen.
+    cbn [fstate2 in_count out_count depth max_depth ftime fsize Z.gtb Z.compare].
+    destruct (tg a) as [f dd tt zz ttr tcl tlo]. cbn [sf sd stm ssz str sc sl] in *.
+    unfold loc_out. cbn [t_loc ftrig2 sl lmode_in fcfg2]. rewrite Hloc.
+    assert (E0 : match f with Some _ => false | None => fm && (i =? 0)%Z end = false).
+    { destruct f; [reflexivity|]. destruct Hreach as [H|[H|H]]; [congruence|subst fm; reflexivity|].
+      destruct fm; [|reflexivity]. cbn [andb]. lia. }
+    rewrite E0. clear E0.
+    destruct f as [[|]|], dd as [n|], tt as [t'|], zz as [z'|];
+      cbn [is_some orb fstate2 in_count out_count depth max_depth ftime fsize with_fc fc enabled cached stack ridx out warned negb] in *;
+      destruct sh; unfold entry_record, with_fc;
+      cbn [fc enabled cached stack ridx out warned in_count out_count fsize f_flags norecord f_addr f_start f_depth
+           t_filter t_trace t_caller t_trace_on t_trace_off orb andb noflags cygprof Z.gtb Z.compare N.ltb N.compare
+           fmode_in sym_size ftrig2 sf sd stm ssz str sc sl fcfg2 Z.add Pos.add fstate2 gframe3 gfl3 state_trig is_some
+           t_depth t_time t_size];
+      split; reflexivity.
   Qed.
 
   (* exit of a frame that may be recorded *)
@@ -264,9 +303,9 @@ Section filt2.
        budget2 x = lim2 x - dp /\ dp <= lim2 x /\ 0 < lim2 x /\
        cthr2 x = (if tm =? NO_TIME then thr else tm) /\ csz2 x = zs).
 
-  Lemma sel2_dead x d k : dead2 x = true -> sel2 tg szf hc x d k = [].
+  Lemma sel2_dead x d k : dead2 x = true -> sel2 tg szf hc lm x d k = [].
   Proof. intro H. destruct k. cbn [sel2]. rewrite H. reflexivity. Qed.
-  Lemma sel2_dead_list x d ks : dead2 x = true -> flat_map (sel2 tg szf hc x d) ks = [].
+  Lemma sel2_dead_list x d ks : dead2 x = true -> flat_map (sel2 tg szf hc lm x d) ks = [].
   Proof. intro H. induction ks as [|k r IH]; cbn [flat_map]; [reflexivity|]. rewrite sel2_dead, IH; auto. Qed.
 
   Hypothesis Hgd : 0 < gd.
@@ -276,13 +315,13 @@ Section filt2.
     timed k -> forall s hk i o dp mx tm zs x d,
     fc s = fstate2 i o dp mx tm zs -> Rel2 i o dp mx tm zs x -> enabled s = true -> ridx s = d ->
     idx s + height k <= ms ->
-    exists s', exec c (flat k) (s, hk) = (s', hk) /\ afterg s s' d (sel2 tg szf hc x d k).
+    exists s', exec c (flat k) (s, hk) = (s', hk) /\ afterg s s' d (sel2 tg szf hc lm x d k).
 
   Lemma run_kids_sel2 (ks : list call) : Forall stmt2 ks ->
     all_timed ks -> forall s hk i o dp mx tm zs x d,
     fc s = fstate2 i o dp mx tm zs -> Rel2 i o dp mx tm zs x -> enabled s = true -> ridx s = d ->
     idx s + heights ks <= ms ->
-    exists s', exec c (flat_map flat ks) (s, hk) = (s', hk) /\ afterg s s' d (flat_map (sel2 tg szf hc x d) ks).
+    exists s', exec c (flat_map flat ks) (s, hk) = (s', hk) /\ afterg s s' d (flat_map (sel2 tg szf hc lm x d) ks).
   Proof.
     induction 1 as [|k r Hk _ IH]; intros HT s hk i o dp mx tm zs x d Hfc HR Hen Hr Hh.
     - exists s. split; [reflexivity|]. apply afterg_nil; assumption.
@@ -310,13 +349,20 @@ Section filt2.
     cbn [flat]. unfold exec. cbn [fold_left dstep]. rewrite fold_left_app. cbn [fold_left].
     assert (Hsh : sh = PG \/ sh = CYG) by (destruct sh; auto).
     (* the trigger of this call is not looked at: the callees run in the same context *)
-    assert (SKIP : ((0 < o)%Z \/ (sf (tg a) = None /\ fm = true /\ i = 0%Z)) ->
+    assert (SKIPG : forall b : bool,
+                   (if b
+                    then exists fr, nrframe fr (fstate2 i o dp mx tm zs) /\
+                                    filtered (f_flags fr) = false /\ notrace (f_flags fr) = false /\
+                         do_enter c s a t0 =
+                         {| fc := fc s; enabled := enabled s; cached := cached s; stack := fr :: stack s;
+                            ridx := ridx s; out := out s; warned := false |} /\ hooked c s a = true
+                    else do_enter c s a t0 =
+                         {| fc := fc s; enabled := enabled s; cached := cached s; stack := stack s; ridx := ridx s;
+                            out := out s; warned := false |} /\ hooked c s a = false) ->
                    exists s', dstep c (fold_left (dstep c) (flat_map flat kids)
                                          (do_enter c s a t0, hooked c s a :: hk)) (Leave t1) = (s', hk)
-                              /\ afterg s s' d (flat_map (sel2 tg szf hc x d) kids)).
-    { intros Hrej.
-      pose proof (enter_skip s i o dp mx tm zs a t0 Hfc Hen Hi Ho0 Hrej) as ER.
-      match type of ER with if ?b then _ else _ => destruct b end.
+                              /\ afterg s s' d (flat_map (sel2 tg szf hc lm x d) kids)).
+    { intros b ER. destruct b.
       2:{ destruct ER as [Een Hhk]; rewrite Een, Hhk.
         set (s1 := {| fc := fc s; enabled := enabled s; cached := cached s; stack := stack s; ridx := ridx s;
                       out := out s; warned := false |}).
@@ -341,6 +387,11 @@ Section filt2.
         eexists. split; [reflexivity|].
         unfold afterg. cbn [fc enabled cached ridx stack out]. rewrite Hfc.
         repeat split; try assumption; congruence. }
+    assert (SKIP : ((0 < o)%Z \/ (sf (tg a) = None /\ fm = true /\ i = 0%Z)) ->
+                   exists s', dstep c (fold_left (dstep c) (flat_map flat kids)
+                                         (do_enter c s a t0, hooked c s a :: hk)) (Leave t1) = (s', hk)
+                              /\ afterg s s' d (flat_map (sel2 tg szf hc lm x d) kids))
+      by (intro Hrej; exact (SKIPG _ (enter_skip s i o dp mx tm zs a t0 Hfc Hen Hi Ho0 Hrej))).
     (* an accepted entry that may be recorded *)
     assert (ACC : forall (fl tr cl : bool) (i' : Z) (dpn mx' tm' zs' : N) (x' : sctx2),
               do_enter c s a t0 =
@@ -351,7 +402,7 @@ Section filt2.
               exists s', dstep c (fold_left (dstep c) (flat_map flat kids)
                                     (do_enter c s a t0, hooked c s a :: hk)) (Leave t1) = (s', hk)
                          /\ afterg s s' d
-                              (let ks := flat_map (sel2 tg szf hc x' (d + 1)) kids in
+                              (let ks := flat_map (sel2 tg szf hc lm x' (d + 1)) kids in
                                if (((if tm' =? NO_TIME then thr else tm') <? t1 - t0) && (negb hc || cl)) || tr || negb (is_nil ks)
                                then E_ a t0 d :: ks ++ [X_ a t1 d] else [])).
     { intros fl tr cl i' dpn mx' tm' zs' x' Een Hhk HR' Hi' Hoz. subst o. rewrite Een, Hhk.
@@ -363,7 +414,7 @@ Section filt2.
       { subst s1. unfold idx in *. cbn [stack length]. lia. }
       unfold exec in E2. rewrite E2. cbn [dstep].
       destruct A2 as (F2 & En2 & C2 & R2 & S2 & O2). subst s1. cbn [stack out cached fc] in *.
-      set (Rk := flat_map (sel2 tg szf hc x' (d + 1)) kids) in *.
+      set (Rk := flat_map (sel2 tg szf hc lm x' (d + 1)) kids) in *.
       change (gframe3 sh false fl false tr cl a t0 (ridx s) (fstate2 i 0 dp mx tm zs))
         with (gf3 sh false fl tr cl a t0 (ridx s) (fstate2 i 0 dp mx tm zs)) in S2, O2.
       rewrite flush_anc_gf3 in S2, O2. cbn [fst snd] in S2, O2.
@@ -392,17 +443,17 @@ Section filt2.
         rewrite Dn in *. destruct Rk; [|discriminate]. cbn [app] in O2. rewrite app_nil_r in *.
         repeat split; try assumption; congruence. } }
     (* an accepted entry whose frame is never recorded (smaller than the size filter in force) *)
-    assert (ACCN : forall (fl tr cl : bool) (i' : Z) (dpn mx' tm' zs' : N) (x' : sctx2),
+    assert (ACCN : forall (ts : N) (fl tr cl : bool) (i' : Z) (dpn mx' tm' zs' : N) (x' : sctx2),
               do_enter c s a t0 =
               {| fc := fstate2 i' 0 dpn mx' tm' zs'; enabled := true; cached := cached s;
-                 stack := gframe3 sh true fl false tr cl a t0 (ridx s) (fstate2 i o dp mx tm zs) :: stack s;
+                 stack := gframe3 sh true fl false tr cl a ts (ridx s) (fstate2 i o dp mx tm zs) :: stack s;
                  ridx := ridx s; out := out s; warned := false |} ->
               hooked c s a = true -> Rel2 i' 0 dpn mx' tm' zs' x' -> i' = (if fl then i + 1 else i)%Z -> o = 0%Z ->
               exists s', dstep c (fold_left (dstep c) (flat_map flat kids)
                                     (do_enter c s a t0, hooked c s a :: hk)) (Leave t1) = (s', hk)
-                         /\ afterg s s' d (flat_map (sel2 tg szf hc x' d) kids)).
-    { intros fl tr cl i' dpn mx' tm' zs' x' Een Hhk HR' Hi' Hoz. subst o. rewrite Een, Hhk.
-      set (fr := gframe3 sh true fl false tr cl a t0 (ridx s) (fstate2 i 0 dp mx tm zs)).
+                         /\ afterg s s' d (flat_map (sel2 tg szf hc lm x' d) kids)).
+    { intros ts fl tr cl i' dpn mx' tm' zs' x' Een Hhk HR' Hi' Hoz. subst o. rewrite Een, Hhk.
+      set (fr := gframe3 sh true fl false tr cl a ts (ridx s) (fstate2 i 0 dp mx tm zs)).
       set (s1 := {| fc := fstate2 i' 0 dpn mx' tm' zs'; enabled := true; cached := cached s;
                     stack := fr :: stack s; ridx := ridx s; out := out s; warned := false |}).
       destruct (RK s1 (true :: hk) i' 0%Z dpn mx' tm' zs' x' d) as (s2 & E2 & A2); try reflexivity; try assumption.
@@ -426,11 +477,11 @@ Section filt2.
               exists s', dstep c (fold_left (dstep c) (flat_map flat kids)
                                     (do_enter c s a t0, hooked c s a :: hk)) (Leave t1) = (s', hk)
                          /\ afterg s s' d
-                              (if sm then flat_map (sel2 tg szf hc x' d) kids
-                               else let ks := flat_map (sel2 tg szf hc x' (d + 1)) kids in
+                              (if sm then flat_map (sel2 tg szf hc lm x' d) kids
+                               else let ks := flat_map (sel2 tg szf hc lm x' (d + 1)) kids in
                                     if (((if tm' =? NO_TIME then thr else tm') <? t1 - t0) && (negb hc || cl)) || tr || negb (is_nil ks)
                                     then E_ a t0 d :: ks ++ [X_ a t1 d] else [])).
-    { intros fl tr cl sm. destruct sm; [apply ACCN|apply ACC]. }
+    { intros fl tr cl sm. destruct sm; [apply (ACCN t0)|apply ACC]. }
     cbn [sel2].
     destruct (dead2 x) eqn:Ed.
     - (* inside notrace *)
@@ -451,8 +502,24 @@ Section filt2.
       destruct (sf g) as [[|]|] eqn:Ef.
       + (* filter hit *)
         assert (Hreach : sf (tg a) <> None \/ fm = false \/ (0 < i)%Z) by (left; rewrite <- Eg, Ef; discriminate).
-        pose proof (enter_reach s i dp mx tm zs a t0 Hfc Hen Hi Hi0 Hreach) as ER. cbv zeta in ER.
-        rewrite <- Eg in ER. unfold hitF, hitN in ER. rewrite Ef in ER. cbn [is_some orb] in ER.
+        destruct (loc_hidden lm g) eqn:EL.
+        { (* hidden by its source location: not shown, no nesting level; the opt-in scope opens below it *)
+          pose proof (enter_loc s i dp mx tm zs a t0 Hfc Hen Hi Hi0 Hreach) as ER.
+          rewrite <- Eg in ER. specialize (ER EL). cbv zeta in ER.
+          unfold hitF, hitN in ER. rewrite Ef in ER. cbn [is_some orb] in ER.
+          assert (Psh : match sh with PG => true | CYG => true end = true) by (destruct sh; reflexivity).
+          rewrite Psh in ER. destruct ER as [Een Hhk].
+          cbn [is_some orb].
+          match goal with |- context [flat_map (sel2 tg szf hc lm ?X d) kids] => set (x' := X) end.
+          destruct (ACCN 0 true (str g) (sc g) (i + 1)%Z 0 mx tm zs x' Een Hhk) as (s' & E & A);
+            [|reflexivity|reflexivity|exists s'; split; [exact E|exact A]].
+          unfold Rel2, x'. cbn [dead2 scope2 budget2 lim2 cthr2 csz2].
+          split; [lia|]. split; [lia|]. split; [split; [discriminate|lia]|]. intros _.
+          split; [split; [intros _; right; lia|reflexivity]|].
+          repeat split; try assumption; lia. }
+        pose proof (enter_reach s i dp mx tm zs a t0 Hfc Hen Hi Hi0 Hreach) as ER.
+        rewrite <- Eg in ER. specialize (ER EL). cbv zeta in ER.
+        unfold hitF, hitN in ER. rewrite Ef in ER. cbn [is_some orb] in ER.
         assert (Hacc : (match sd g with Some n => n | None => if mx =? FILTER_NO_MAX_DEPTH then gd else mx end <=? 0) = false).
         { destruct (sd g) as [n|] eqn:Esd; [destruct (WFd n eq_refl); lia| rewrite <- Hlim; lia]. }
         rewrite Hacc in ER. destruct ER as [Een Hhk].
@@ -460,7 +527,7 @@ Section filt2.
         assert (Hb' : (0 <? match sd g with Some n => n | None => lim2 x end) = true).
         { destruct (sd g) as [n|] eqn:Esd; [destruct (WFd n eq_refl); lia|lia]. }
         rewrite Hb'. cbv zeta.
-        match goal with |- context [flat_map (sel2 tg szf hc ?X (d + 1)) kids] => set (x' := X) end.
+        match goal with |- context [flat_map (sel2 tg szf hc lm ?X (d + 1)) kids] => set (x' := X) end.
         destruct (ACC2 true (str g) (sc g) _ (i + 1)%Z (0 + 1) (match sd g with Some n => n | None => mx end)
                        (match stm g with Some t => t | None => tm end) (match ssz g with Some z => z | None => zs end)
                        x' Een Hhk) as (s' & E & A); [|reflexivity|reflexivity|].
@@ -474,32 +541,47 @@ Section filt2.
         exists s'. split; [exact E|]. cbv zeta in A. rewrite Hthr' in A. exact A.
       + (* notrace hit: this call and everything below is hidden *)
         assert (Hreach : sf (tg a) <> None \/ fm = false \/ (0 < i)%Z) by (left; rewrite <- Eg, Ef; discriminate).
-        pose proof (enter_reach s i dp mx tm zs a t0 Hfc Hen Hi Hi0 Hreach) as ER. cbv zeta in ER.
-        rewrite <- Eg in ER. unfold hitF, hitN in ER. rewrite Ef in ER. cbn [is_some orb] in ER.
+        assert (NTR : forall ts dpn mx' tm' zs',
+                  do_enter c s a t0 =
+                  {| fc := fstate2 i 1 dpn mx' tm' zs'; enabled := true; cached := cached s;
+                     stack := gframe3 sh true false true (str g) (sc g) a ts (ridx s) (fstate2 i 0 dp mx tm zs) :: stack s;
+                     ridx := ridx s; out := out s; warned := false |} -> hooked c s a = true ->
+                  exists s', dstep c (fold_left (dstep c) (flat_map flat kids)
+                                        (do_enter c s a t0, hooked c s a :: hk)) (Leave t1) = (s', hk)
+                             /\ afterg s s' d []).
+        { intros ts dpn mx' tm' zs' Een Hhk. rewrite Een, Hhk.
+          set (fr := gframe3 sh true false true (str g) (sc g) a ts (ridx s) (fstate2 i 0 dp mx tm zs)) in *.
+          set (s1 := {| fc := fstate2 i 1 dpn mx' tm' zs'; enabled := true; cached := cached s;
+                        stack := fr :: stack s; ridx := ridx s; out := out s; warned := false |}).
+          destruct (RK s1 (true :: hk) i 1%Z dpn mx' tm' zs'
+                       {| dead2 := true; scope2 := false; budget2 := 0; lim2 := 0; cthr2 := 0; csz2 := 0 |} d)
+            as (s2 & E2 & A2); try reflexivity; try assumption.
+          { unfold Rel2. cbn [dead2]. split; [lia|]. split; [lia|]. split; [split; [lia|reflexivity]|discriminate]. }
+          { subst s1. unfold idx in *. cbn [stack length]. lia. }
+          unfold exec in E2. rewrite E2. cbn [dstep].
+          rewrite sel2_dead_list in A2 by reflexivity.
+          destruct A2 as (F2 & En2 & C2 & R2 & S2 & O2). subst s1. cbn [stack out cached fc is_nil app] in *.
+          rewrite app_nil_r in O2.
+          rewrite (leave_norec2 s2 fr (fstate2 i 0 dp mx tm zs) t1 _ i 1%Z dpn mx' tm' zs' S2 (nrframe_gframe3 _ _ _ _ _ _ _ _ _) F2).
+          cbn [fr gframe3 f_flags gfl3 filtered notrace fstate2 depth max_depth ftime fsize].
+          eexists. split; [reflexivity|].
+          unfold afterg. cbn [fc enabled cached ridx stack out is_nil app]. rewrite Hfc, app_nil_r.
+          replace (1 - 1)%Z with 0%Z by lia.
+          repeat split; try assumption; congruence. }
+        destruct (loc_hidden lm g) eqn:EL.
+        { pose proof (enter_loc s i dp mx tm zs a t0 Hfc Hen Hi Hi0 Hreach) as ER.
+          rewrite <- Eg in ER. specialize (ER EL). cbv zeta in ER.
+          unfold hitF, hitN in ER. rewrite Ef in ER. cbn [is_some orb] in ER.
+          assert (Psh : match sh with PG => true | CYG => true end = true) by (destruct sh; reflexivity).
+          rewrite Psh in ER. destruct ER as [Een Hhk].
+          exact (NTR 0 0 mx tm zs Een Hhk). }
+        pose proof (enter_reach s i dp mx tm zs a t0 Hfc Hen Hi Hi0 Hreach) as ER.
+        rewrite <- Eg in ER. specialize (ER EL). cbv zeta in ER.
+        unfold hitF, hitN in ER. rewrite Ef in ER. cbn [is_some orb] in ER.
         assert (Hacc : (match sd g with Some n => n | None => if mx =? FILTER_NO_MAX_DEPTH then gd else mx end <=? 0) = false).
         { destruct (sd g) as [n|] eqn:Esd; [destruct (WFd n eq_refl); lia| rewrite <- Hlim; lia]. }
-        rewrite Hacc in ER. destruct ER as [Een Hhk]. rewrite Een, Hhk.
-        set (mx' := match sd g with Some n => n | None => mx end) in *.
-        set (tm' := match stm g with Some t => t | None => tm end) in *.
-        set (zs' := match ssz g with Some z => z | None => zs end) in *.
-        set (fr := gframe3 sh true false true (str g) (sc g) a t0 (ridx s) (fstate2 i 0 dp mx tm zs)) in *.
-        set (s1 := {| fc := fstate2 i 1 (0 + 1) mx' tm' zs'; enabled := true; cached := cached s;
-                      stack := fr :: stack s; ridx := ridx s; out := out s; warned := false |}).
-        destruct (RK s1 (true :: hk) i 1%Z (0 + 1) mx' tm' zs'
-                     {| dead2 := true; scope2 := false; budget2 := 0; lim2 := 0; cthr2 := 0; csz2 := 0 |} d)
-          as (s2 & E2 & A2); try reflexivity; try assumption.
-        { unfold Rel2. cbn [dead2]. split; [lia|]. split; [lia|]. split; [split; [lia|reflexivity]|discriminate]. }
-        { subst s1. unfold idx in *. cbn [stack length]. lia. }
-        unfold exec in E2. rewrite E2. cbn [dstep].
-        rewrite sel2_dead_list in A2 by reflexivity.
-        destruct A2 as (F2 & En2 & C2 & R2 & S2 & O2). subst s1. cbn [stack out cached fc is_nil app] in *.
-        rewrite app_nil_r in O2.
-        rewrite (leave_norec2 s2 fr (fstate2 i 0 dp mx tm zs) t1 _ i 1%Z (0 + 1) mx' tm' zs' S2 (nrframe_gframe3 _ _ _ _ _ _ _ _ _) F2).
-        cbn [fr gframe3 f_flags gfl3 filtered notrace fstate2 depth max_depth ftime fsize].
-        eexists. split; [reflexivity|].
-        unfold afterg. cbn [fc enabled cached ridx stack out is_nil app]. rewrite Hfc, app_nil_r.
-        replace (1 - 1)%Z with 0%Z by lia.
-        repeat split; try assumption; congruence.
+        rewrite Hacc in ER. destruct ER as [Een Hhk].
+        exact (NTR t0 (0 + 1) _ _ _ Een Hhk).
       + (* no filter on this function *)
         cbn [is_some orb].
         destruct (scope2 x) eqn:Esc.
@@ -510,15 +592,28 @@ Section filt2.
               assert (false = true) by (apply Hsc; right; lia). discriminate.
             - assert (false = true) by (apply Hsc; left; reflexivity). discriminate. }
         assert (Hreach : sf (tg a) <> None \/ fm = false \/ (0 < i)%Z) by (right; apply Hsc; reflexivity).
-        pose proof (enter_reach s i dp mx tm zs a t0 Hfc Hen Hi Hi0 Hreach) as ER. cbv zeta in ER.
-        rewrite <- Eg in ER. unfold hitF, hitN in ER. rewrite Ef in ER. cbn [is_some orb] in ER.
+        destruct (loc_hidden lm g) eqn:EL.
+        { (* hidden by its source location: nothing of it is applied, the callees run in the same context *)
+          pose proof (enter_loc s i dp mx tm zs a t0 Hfc Hen Hi Hi0 Hreach) as ER.
+          rewrite <- Eg in ER. specialize (ER EL). cbv zeta in ER.
+          unfold hitF, hitN in ER. rewrite Ef in ER. cbn [is_some orb] in ER.
+          cbn [is_some].
+          match type of ER with if ?b then _ else _ => destruct b eqn:Push end; destruct ER as [Een Hhk].
+          - apply (SKIPG true).
+            exists (gframe3 sh true false false (str g) (sc g) a 0 (ridx s) (fstate2 i 0 dp mx tm zs)).
+            split; [apply nrframe_gframe3|]. split; [reflexivity|]. split; [reflexivity|].
+            rewrite Hfc, Hen. split; assumption.
+          - apply (SKIPG false). rewrite Hfc, Hen. split; assumption. }
+        pose proof (enter_reach s i dp mx tm zs a t0 Hfc Hen Hi Hi0 Hreach) as ER.
+        rewrite <- Eg in ER. specialize (ER EL). cbv zeta in ER.
+        unfold hitF, hitN in ER. rewrite Ef in ER. cbn [is_some orb] in ER.
         destruct (sd g) as [n|] eqn:Esd.
         * (* depth=n trigger: n levels from here *)
           destruct (WFd n eq_refl) as [Hn0 Hnm].
           cbn [is_some] in ER.
           assert (Hacc : (n <=? 0) = false) by lia. rewrite Hacc in ER. destruct ER as [Een Hhk].
           assert (Hb' : (0 <? n) = true) by lia. rewrite Hb'. cbv zeta.
-          match goal with |- context [flat_map (sel2 tg szf hc ?X (d + 1)) kids] => set (x' := X) end.
+          match goal with |- context [flat_map (sel2 tg szf hc lm ?X (d + 1)) kids] => set (x' := X) end.
           destruct (ACC2 false (str g) (sc g) _ i (0 + 1) n (match stm g with Some t => t | None => tm end)
                          (match ssz g with Some z => z | None => zs end) x' Een Hhk) as (s' & E & A);
             [|reflexivity|reflexivity|].
@@ -533,7 +628,7 @@ Section filt2.
              assert (Hb' : (0 <? budget2 x) = false) by lia. rewrite Hb'.
              set (tm' := match stm g with Some t => t | None => tm end) in *.
              set (zs' := match ssz g with Some z => z | None => zs end) in *.
-             match goal with |- context [flat_map (sel2 tg szf hc ?X d) kids] => set (x' := X) end.
+             match goal with |- context [flat_map (sel2 tg szf hc lm ?X d) kids] => set (x' := X) end.
              assert (HR' : Rel2 i 0 dp mx tm' zs' x').
              { unfold Rel2, x'. cbn [dead2 scope2 budget2 lim2 cthr2 csz2].
                split; [lia|]. split; [lia|]. split; [split; [discriminate|lia]|]. intros _.
@@ -572,7 +667,7 @@ Section filt2.
           -- (* within the limit *)
              destruct ER as [Een Hhk].
              assert (Hb' : (0 <? budget2 x) = true) by lia. rewrite Hb'. cbv zeta.
-             match goal with |- context [flat_map (sel2 tg szf hc ?X (d + 1)) kids] => set (x' := X) end.
+             match goal with |- context [flat_map (sel2 tg szf hc lm ?X (d + 1)) kids] => set (x' := X) end.
              destruct (ACC2 false (str g) (sc g) _ i (dp + 1) mx (match stm g with Some t => t | None => tm end)
                             (match ssz g with Some z => z | None => zs end) x' Een Hhk) as (s' & E & A);
                [|reflexivity|reflexivity|].
@@ -584,7 +679,7 @@ Section filt2.
   Qed.
 
   Theorem run_forest_sel2 : forall f, all_timed f -> heights f <= ms ->
-    out (fst (exec c (flat_forest f) (init, []))) = flat_map (sel2 tg szf hc (x02 fm gd thr) 0) f.
+    out (fst (exec c (flat_forest f) (init, []))) = flat_map (sel2 tg szf hc lm (x02 fm gd thr) 0) f.
   Proof.
     intros f HT Hh.
     assert (HF : Forall stmt2 f) by (apply Forall_forall; intros k0 _; apply run_call_sel2).
@@ -604,36 +699,37 @@ End filt2.
 
 (* non-vacuity of the hypotheses *)
 Definition tg_example : N -> strig :=
-  assoc notrig2 [(256, {| sf := Some true; sd := Some 2; stm := Some 50; ssz := Some 40; str := false; sc := true |});
-                 (512, {| sf := Some false; sd := None; stm := None; ssz := None; str := false; sc := false |});
-                 (768, {| sf := None; sd := Some 3; stm := Some 7; ssz := None; str := true; sc := false |})].
+  assoc notrig2 [(256, {| sf := Some true; sd := Some 2; stm := Some 50; ssz := Some 40; str := false; sc := true; sl := Some true |});
+                 (512, {| sf := Some false; sd := None; stm := None; ssz := None; str := false; sc := false; sl := None |});
+                 (1024, {| sf := None; sd := None; stm := None; ssz := None; str := false; sc := false; sl := Some false |});
+                 (768, {| sf := None; sd := Some 3; stm := Some 7; ssz := None; str := true; sc := false; sl := None |})].
 Lemma tg_example_ok : wf_tg tg_example.
 Proof.
   intro a; unfold tg_example; cbn [assoc].
-  destruct (a =? 256); [|destruct (a =? 512); [|destruct (a =? 768)]]; cbn [sf sd stm ssz str sc notrig2];
+  destruct (a =? 256); [|destruct (a =? 512); [|destruct (a =? 1024); [|destruct (a =? 768)]]]; cbn [sf sd stm ssz str sc notrig2];
     (split; intros ? H; inversion H; subst; try split; try lia; discriminate).
 Qed.
 
 (* consequence: inside this option class the recorded stream does not depend on the instrumentation method *)
-Theorem method_independent_sel2 tg szf fm hc gd thr ms f :
+Theorem method_independent_sel2 tg szf fm hc lm gd thr ms f :
   0 < gd -> wf_tg tg -> all_timed f -> heights f <= ms ->
-  out (fst (exec (fcfg2 tg szf fm hc gd thr ms PG) (flat_forest f) (init, []))) =
-  out (fst (exec (fcfg2 tg szf fm hc gd thr ms CYG) (flat_forest f) (init, []))).
+  out (fst (exec (fcfg2 tg szf fm hc lm gd thr ms PG) (flat_forest f) (init, []))) =
+  out (fst (exec (fcfg2 tg szf fm hc lm gd thr ms CYG) (flat_forest f) (init, []))).
 Proof.
   intros Hgd WF HT Hh.
-  rewrite (run_forest_sel2 tg szf fm hc gd thr ms PG Hgd WF f HT Hh).
-  rewrite (run_forest_sel2 tg szf fm hc gd thr ms CYG Hgd WF f HT Hh). reflexivity.
+  rewrite (run_forest_sel2 tg szf fm hc lm gd thr ms PG Hgd WF f HT Hh).
+  rewrite (run_forest_sel2 tg szf fm hc lm gd thr ms CYG Hgd WF f HT Hh). reflexivity.
 Qed.
 
 (* inside this option class the filter state is restored on the -pg shape as well (beyond [safe_pg] of Restore.v:
    time= and size= triggers are allowed when they come with a filter or a depth= trigger) *)
-Theorem filter_state_restored_sel2 tg szf fm hc gd thr ms sh f :
+Theorem filter_state_restored_sel2 tg szf fm hc lm gd thr ms sh f :
   0 < gd -> wf_tg tg -> all_timed f -> heights f <= ms ->
-  fc (fst (exec (fcfg2 tg szf fm hc gd thr ms sh) (flat_forest f) (init, []))) = fc init /\
-  ridx (fst (exec (fcfg2 tg szf fm hc gd thr ms sh) (flat_forest f) (init, []))) = 0.
+  fc (fst (exec (fcfg2 tg szf fm hc lm gd thr ms sh) (flat_forest f) (init, []))) = fc init /\
+  ridx (fst (exec (fcfg2 tg szf fm hc lm gd thr ms sh) (flat_forest f) (init, []))) = 0.
 Proof.
   intros Hgd WF HT Hh.
-  assert (HF : Forall (stmt2 tg szf fm hc gd thr ms sh) f)
+  assert (HF : Forall (stmt2 tg szf fm hc lm gd thr ms sh) f)
     by (apply Forall_forall; intros k0 _; apply run_call_sel2; assumption).
   assert (HR : Rel2 fm gd thr 0 0 0 FILTER_NO_MAX_DEPTH NO_TIME 0 (x02 fm gd thr)).
   { unfold Rel2, x02. cbn [dead2 scope2 budget2 lim2 cthr2 csz2]. rewrite !N.eqb_refl.
@@ -641,31 +737,31 @@ Proof.
     split; [split; intro H; [left; apply negb_true_iff; exact H|destruct H as [H|H]; [rewrite H; reflexivity|lia]]|].
     repeat split; lia. }
   assert (Hix : idx init + heights f <= ms) by (cbn; lia).
-  destruct (run_kids_sel2 tg szf fm hc gd thr ms sh Hgd f HF HT init [] 0%Z 0%Z 0 FILTER_NO_MAX_DEPTH NO_TIME 0
+  destruct (run_kids_sel2 tg szf fm hc lm gd thr ms sh Hgd f HF HT init [] 0%Z 0%Z 0 FILTER_NO_MAX_DEPTH NO_TIME 0
                           (x02 fm gd thr) 0 eq_refl HR eq_refl eq_refl Hix) as (s' & E & A).
   unfold flat_forest. rewrite E. cbn [fst]. destruct A as (F & _ & _ & R & _ & _). split; assumption.
 Qed.
 
 (* ... and after every single call, from every state the class can reach (Rel2 links it to a context of the spec) *)
-Theorem call_restores_state_sel2 tg szf fm hc gd thr ms sh :
+Theorem call_restores_state_sel2 tg szf fm hc lm gd thr ms sh :
   0 < gd -> wf_tg tg -> forall k, timed k -> forall s hk i o dp mx tm zs x,
   fc s = fstate2 i o dp mx tm zs -> Rel2 fm gd thr i o dp mx tm zs x -> enabled s = true -> idx s + height k <= ms ->
-  exists s', exec (fcfg2 tg szf fm hc gd thr ms sh) (flat k) (s, hk) = (s', hk) /\ fc s' = fc s /\ ridx s' = ridx s.
+  exists s', exec (fcfg2 tg szf fm hc lm gd thr ms sh) (flat k) (s, hk) = (s', hk) /\ fc s' = fc s /\ ridx s' = ridx s.
 Proof.
   intros Hgd WF k HT s hk i o dp mx tm zs x Hfc HR Hen Hh.
-  destruct (run_call_sel2 tg szf fm hc gd thr ms sh Hgd WF k HT s hk i o dp mx tm zs x (ridx s) Hfc HR Hen eq_refl Hh)
+  destruct (run_call_sel2 tg szf fm hc lm gd thr ms sh Hgd WF k HT s hk i o dp mx tm zs x (ridx s) Hfc HR Hen eq_refl Hh)
     as (s' & E & A).
   exists s'. split; [exact E|]. destruct A as (F & _ & _ & R & _ & _). split; assumption.
 Qed.
 
 (* with the global size filter -Z gz every thread starts from [init_z gz]; the same refinement *)
-Theorem run_forest_sel2_z tg szf fm hc gd thr ms sh gz f :
+Theorem run_forest_sel2_z tg szf fm hc lm gd thr ms sh gz f :
   0 < gd -> wf_tg tg -> all_timed f -> heights f <= ms ->
-  out (fst (exec (fcfg2 tg szf fm hc gd thr ms sh) (flat_forest f) (init_z gz, []))) =
-  flat_map (sel2 tg szf hc (x02z fm gd thr gz) 0) f.
+  out (fst (exec (fcfg2 tg szf fm hc lm gd thr ms sh) (flat_forest f) (init_z gz, []))) =
+  flat_map (sel2 tg szf hc lm (x02z fm gd thr gz) 0) f.
 Proof.
   intros Hgd WF HT Hh.
-  assert (HF : Forall (stmt2 tg szf fm hc gd thr ms sh) f)
+  assert (HF : Forall (stmt2 tg szf fm hc lm gd thr ms sh) f)
     by (apply Forall_forall; intros k0 _; apply run_call_sel2; assumption).
   assert (HR : Rel2 fm gd thr 0 0 0 FILTER_NO_MAX_DEPTH NO_TIME gz (x02z fm gd thr gz)).
   { unfold Rel2, x02z. cbn [dead2 scope2 budget2 lim2 cthr2 csz2]. rewrite !N.eqb_refl.
@@ -673,7 +769,7 @@ Proof.
     split; [split; intro H; [left; apply negb_true_iff; exact H|destruct H as [H|H]; [rewrite H; reflexivity|lia]]|].
     repeat split; lia. }
   assert (Hix : idx (init_z gz) + heights f <= ms) by (cbn; lia).
-  destruct (run_kids_sel2 tg szf fm hc gd thr ms sh Hgd f HF HT (init_z gz) [] 0%Z 0%Z 0 FILTER_NO_MAX_DEPTH NO_TIME gz
+  destruct (run_kids_sel2 tg szf fm hc lm gd thr ms sh Hgd f HF HT (init_z gz) [] 0%Z 0%Z 0 FILTER_NO_MAX_DEPTH NO_TIME gz
                           (x02z fm gd thr gz) 0 eq_refl HR eq_refl eq_refl Hix) as (s' & E & A).
   unfold flat_forest. rewrite E. cbn [fst].
   destruct A as (_ & _ & _ & _ & _ & O). rewrite O. cbn [init_z out stack flush_anc snd app].
